@@ -87,7 +87,22 @@ func c05Gen(r *rand.Rand, tier string, mode string) []Case {
 				c = append(c, fmt.Sprintf("subrefund %d", g))
 				refund -= g
 			case x < 12:
-				c = append(c, "addlog")
+				if r.Intn(2) == 0 {
+					c = append(c, "addlog")
+				} else if withBank {
+					// a CREATE with an endowment at an address that already has an object, failing (the frame reverts),
+					// then another balance change of that address
+					amt := int64(1 + r.Intn(40))
+					c = append(c, "snap", fmt.Sprintf("createacct %d", a), fmt.Sprintf("xfer %d %d %d", b, a, amt), fmt.Sprintf("revert %d", nextID), fmt.Sprintf("xfer %d %d 1", b, a), "commit", "dump")
+					nextID++
+					snaps = nil
+				} else if !withBank {
+					// CREATE / CREATE2 at an address that already has an object (e.g. pre-funded), init code that self-destructs
+					c = append(c, fmt.Sprintf("createacct %d", a))
+					if r.Intn(2) == 0 {
+						c = append(c, fmt.Sprintf("suicide %d", a))
+					}
+				}
 			case x < 14:
 				if r.Intn(2) == 0 {
 					c = append(c, fmt.Sprintf("accaddr %d", a))
@@ -386,6 +401,9 @@ func c05Exec(c Case, prop string) (outs []string, fails []Failure, tags []string
 				env.db.Suicide(ad(1))
 				out = "ok"
 			case "noop":
+				out = "ok"
+			case "createacct":
+				env.db.CreateAccount(ad(1))
 				out = "ok"
 			case "sync":
 				env.db.SyncBalances()
